@@ -165,6 +165,36 @@ func loadProgram(repo string, contracts map[string]*ContractFile, pkgPaths []str
 	if len(errs) > 0 {
 		return nil, fmt.Errorf("type errors in /repo: %s", strings.Join(errs, "; "))
 	}
+	// contracts on local function values may be keyed by variable name: "F.needToRun" is the literal bound to
+	// the local variable needToRun of F; it is aliased to that literal's ordinal key ("F.lit#4").
+	for pkgPath, cf := range contracts {
+		if prog.pkgs[pkgPath] == nil {
+			continue
+		}
+		for _, key := range append([]string{}, cf.Order...) {
+			i := strings.LastIndex(key, ".")
+			if i <= 0 || strings.Contains(key, ".lit#") || strings.HasSuffix(key[:i], ")") && !strings.Contains(key[:i], ").") {
+				continue
+			}
+			outer, vname := key[:i], key[i+1:]
+			for obj, clo := range prog.closureOf {
+				if obj.Name() != vname || clo.Pkg.PkgPath != pkgPath || !strings.HasPrefix(clo.Name, outer+".lit#") {
+					continue
+				}
+				fc := cf.Funcs[key]
+				if _, exists := cf.Funcs[clo.Name]; !exists {
+					fc.Key = clo.Name
+					cf.Funcs[clo.Name] = fc
+					delete(cf.Funcs, key)
+					for k := range cf.Order {
+						if cf.Order[k] == key {
+							cf.Order[k] = clo.Name
+						}
+					}
+				}
+			}
+		}
+	}
 	for pkgPath, cf := range contracts {
 		p := prog.pkgs[pkgPath]
 		if p == nil {
